@@ -89,6 +89,8 @@ func build(t types.Type, path string, l *Layout) {
 		switch {
 		case info&types.IsBoolean != 0:
 			l.Leaves = append(l.Leaves, LeafInfo{Sort: BoolSort, Path: path, T: t})
+		case info&types.IsInteger != 0 && isMathInt(t):
+			l.Leaves = append(l.Leaves, LeafInfo{Sort: IntSort, Path: path, T: t, Signed: true})
 		case info&types.IsInteger != 0:
 			l.Leaves = append(l.Leaves, LeafInfo{Sort: BV(intWidth(u)), Path: path, T: t, Signed: info&types.IsUnsigned == 0})
 		case info&types.IsFloat != 0:
